@@ -288,8 +288,11 @@ def run_impl(script, timeout_s=10):
                     except Exception:
                         outs.append("err")
                 elif cmd[0] == "reset":
-                    slots[cmd[1]].reset()
-                    outs.append("ok")
+                    try:
+                        slots[cmd[1]].reset()
+                        outs.append("ok")
+                    except Exception as ex:      # a reset() that raises (e.g. PInterpolate.reset() over an un-rewound input)
+                        outs.append("reset-raised " + err_tok(ex))
                 elif cmd[0] == "copy":
                     slots[cmd[2]] = slots[cmd[1]].copy()
                     outs.append("ok")
